@@ -27,3 +27,8 @@ def run_regex(case):
     rx = str(r.regexp)
     pat = re.compile(rx, re.DOTALL)
     return {"rx": rx, "m": [bool(pat.fullmatch(x)) for x in case["subjects"]]}
+
+def run_slice(case):
+    v = SigmaString(case["s"])
+    r = v[slice(case["start"], case["stop"])]
+    return {"parts": enc_parts(r.s)}
